@@ -148,7 +148,7 @@ def check_lens(part, o, rows_w, unit_desc, cfg_desc, ap, ftype, obj, max_field, 
     c2 = cond(rows_w, ref, ftype, obj, kind='chief')
     epl = abcd.EPL(rows_w)
     xpl = abcd.XPL(rows_w)
-    if not (math.isfinite(epl) and math.isfinite(xpl)) or abs(epl) > 1e7 or abs(xpl) > 1e7:
+    if not (math.isfinite(epl) and math.isfinite(xpl)) or abs(epl) > 1e7 or abs(xpl) > 1e7 or abcd.pupil_degenerate(rows_w):
         part.count('skipped-telecentric-pupil')
         return
     compare(part, 'EPL', 'Paraxial.EPL', c1, det, P.EPL(), epl, scale=max(1.0, abs(epl)))
